@@ -259,6 +259,13 @@ def labels_from_codes(tape: Tape, codes: np.ndarray, ngroups: int, kind: str, *,
         uniq = vals.view("M8[ns]")
     else:
         raise ValueError(kind)
+    # never make *every* label missing: with nothing requested either that is a degenerate
+    # call (flox raises IndexError even eagerly) which only C19 is concerned with
+    flat = out.reshape(-1)
+    if flat.size and kind in ("float", "datetime"):
+        miss = np.isnan(flat) if kind == "float" else np.isnat(flat)
+        if miss.all():
+            flat[0] = uniq[codes.reshape(-1)[0]]
     return out, uniq
 
 
